@@ -2,7 +2,7 @@
     anything is refused by peg.peg's own rule tree.  (A rule ends only before another rule or at the end of the
     text: Definition <- ... &(Identifier LeftArrow / !.).) *)
 From PegV Require Import Base.Tac Base.ListX Spec.Syntax Spec.Peg Proofs.PegRel Model.Calls Generated.PegPeg
-  Reader.Base Reader.Lex Reader.Chars Reader.Lits Reader.Expr Reader.File.
+  Reader.Base Reader.Lex Reader.Chars Reader.Lits Reader.Expr Reader.File Spec.WF Proofs.Forest Proofs.Total.
 Local Open Scope Z_scope.
 
 Section Reject.
@@ -39,20 +39,34 @@ Proof.
   korun.
 Qed.
 
-(** a rule followed by such a character is not a rule *)
-Lemma def_ko d c m p : def_ok d -> junk_head c = true -> At p (dshow d ++ c :: m) -> ko (EName pr_Definition) p.
+(** What may stand behind the last rule of a text without being read as part of it, and is not the end of the text:
+    it cannot continue the rule's expression, and the look-ahead that ends a rule fails on it. *)
+Definition Ends (rest : list rune) : Prop :=
+  stop rest /\ forall q, At q rest ->
+    fol buf penv q rest /\ ko (EName pr_Prefix) q /\ ko (EName pr_Slash) q /\ head_ne 47 rest /\
+    not_icont_head rest /\ ko (EAnd (EAlt [ESeq [EName pr_Identifier; EName pr_LeftArrow]; ENot EDot])) q.
+
+Lemma junk_ends c m : junk_head c = true -> Ends (c :: m).
+Proof.
+  intros Hj. split.
+  - destruct (junk_unpack c Hj) as (N1&N2&N3&N4&N5&N6&_). cbn [stop]. repeat split; try assumption. intros E; congruence.
+  - intros q Hq. destruct (junk_facts _ _ _ Hq Hj) as (F & Kp & Ks & H47 & _ & Hnic & Kand). auto 10.
+Qed.
+
+(** a rule followed by such a text is not a rule *)
+Lemma def_ko d rest p : def_ok d -> Ends rest -> At p (dshow d ++ rest) -> ko (EName pr_Definition) p.
 Proof.
   intros (Hid & Hs1 & Hs2 & Hw) Hj Hat. destruct d as [id s1 uni s2 e]. unfold dshow in *. cbn [d_name d_s1 d_uni d_s2 d_body] in *.
   rewrite <- !app_assoc in Hat.
-  assert (Hn : not_icont_head (s1 ++ arrow_text uni ++ s2 ++ show e ++ c :: m)).
+  assert (Hn : not_icont_head (s1 ++ arrow_text uni ++ s2 ++ show e ++ rest)).
   { destruct s1 as [|c0 s']; [apply arrow_nic|apply layhead_nic; [exact Hs1|discriminate]]. }
   pose proof (fun t => identifier_ok buf penv id s1 _ p t Hid Hs1 (arrow_stop uni _) Hn Hat) as Hident.
   atn Hat as A1. atn A1 as A2. atn A2 as A3. atn A3 as A4. atn A4 as A5.
-  destruct (junk_facts _ _ _ A5 Hj) as (F & Kp & Ks & H47 & Hstl & Hnic & Kand).
-  assert (Hst : stop (show e ++ c :: m)).
+  destruct Hj as [Hstl Hj]. destruct (Hj _ A5) as (F & Kp & Ks & H47 & Hnic & Kand).
+  assert (Hst : stop (show e ++ rest)).
   { destruct (show_start4 e Hw) as [E|(c1 & m1 & E & Hp & _)]; rewrite E; cbn [app]; [exact Hstl|apply pstart_stop; exact Hp]. }
   pose proof (fun t => arrow_parse buf penv uni s2 _ _ t Hs2 Hst A2) as Harrow.
-  pose proof (fun t => expression_ok buf penv e Hw (c :: m) _ t A4 F (fun _ => Hnic) Kp Ks H47) as He.
+  pose proof (fun t => expression_ok buf penv e Hw rest _ t A4 F (fun _ => Hnic) Kp Ks H47) as He.
   ko_into_rule. apply ko_seq.
   pose proof (Hident (0%nat, 0%nat)) as H1.
   eapply (kos_tail_C _ _ _ _ _ _ _ _ _ H1).
@@ -68,36 +82,31 @@ Notation ok := (ok pegpeg_d pegpeg_d_ptx buf penv).
 Notation kwe l := (ESeq (map EChar l)).
 Notation kos := (kos pegpeg_d pegpeg_d_ptx buf penv).
 
-Lemma junk_stop c m : junk_head c = true -> stop (c :: m).
+Lemma defs_stop_junk l rest : defs_ok l -> Ends rest -> stop (flat_map dshow l ++ rest).
 Proof.
-  intros Hj. destruct (junk_unpack c Hj) as (N1&N2&N3&N4&N5&N6&_). cbn [stop]. repeat split; try assumption. intros E; congruence.
-Qed.
-
-Lemma defs_stop_junk l c m : defs_ok l -> junk_head c = true -> stop (flat_map dshow l ++ c :: m).
-Proof.
-  intros Hl Hj. destruct l as [|d l]; [apply junk_stop; exact Hj|]. cbn [defs_ok flat_map] in *. destruct Hl as ((Hid & _) & _).
+  intros Hl Hj. destruct l as [|d l]; [exact (proj1 Hj)|]. cbn [defs_ok flat_map] in *. destruct Hl as ((Hid & _) & _).
   unfold dshow. rewrite <- !app_assoc. apply ident_stop. exact Hid.
 Qed.
 
 (** the rules of a file followed by such a character: the repetition stops before the last of them *)
-Lemma defs_junk c m : junk_head c = true -> forall l p, defs_ok l -> l <> [] -> At p (flat_map dshow l ++ c :: m) ->
+Lemma defs_junk rest : Ends rest -> forall l p, defs_ok l -> l <> [] -> At p (flat_map dshow l ++ rest) ->
   exists p' f x s0, ok (EStar (EName pr_Definition)) p p' f /\ At p' (x :: s0).
 Proof.
   intros Hj. induction l as [|d l IH]; intros p Hok Hne Hat; [congruence|]. cbn [flat_map defs_ok] in *. destruct Hok as (Hd & Hg & Hl).
   rewrite <- app_assoc in Hat.
   destruct l as [|d' l'].
   - (* the last rule is not followed by a rule or the end: it is not read *)
-    cbn [flat_map app] in Hat. pose proof (def_ko d c m p Hd Hj Hat) as K.
+    cbn [flat_map app] in Hat. pose proof (def_ko d rest p Hd Hj Hat) as K.
     destruct Hd as (Hid & _). destruct (ident_head _ Hid) as (x & r & E & _).
-    exists p, [], x, (r ++ d_s1 d ++ arrow_text (d_uni d) ++ d_s2 d ++ show (d_body d) ++ c :: m).
+    exists p, [], x, (r ++ d_s1 d ++ arrow_text (d_uni d) ++ d_s2 d ++ show (d_body d) ++ rest).
     split; [apply ok_star_nil; exact K|]. unfold dshow in Hat. rewrite <- !app_assoc in Hat. rewrite E in Hat. exact Hat.
-  - assert (Hds : defstart (flat_map dshow (d' :: l') ++ c :: m)).
+  - assert (Hds : defstart (flat_map dshow (d' :: l') ++ rest)).
     { right. cbn [defs_ok] in Hl. destruct Hl as ((Hid & Hs1 & Hs2 & Hw) & _ & Hl').
-      exists (d_name d'), (d_s1 d'), (d_uni d'), (d_s2 d'), (show (d_body d') ++ flat_map dshow l' ++ c :: m).
+      exists (d_name d'), (d_s1 d'), (d_uni d'), (d_s2 d'), (show (d_body d') ++ flat_map dshow l' ++ rest).
       split; [cbn [flat_map]; unfold dshow; rewrite <- !app_assoc; reflexivity|]. repeat split; try assumption.
       destruct (show_start4 (d_body d') Hw) as [E|(c1 & m1 & E & Hp & _)]; rewrite E; cbn [app];
         [apply defs_stop_junk; assumption|apply pstart_stop; exact Hp]. }
-    assert (Hg' : glue (d_body d) = true -> not_icont_head (flat_map dshow (d' :: l') ++ c :: m)).
+    assert (Hg' : glue (d_body d) = true -> not_icont_head (flat_map dshow (d' :: l') ++ rest)).
     { intros E. rewrite Hg in E; [discriminate|discriminate]. }
     destruct (def_parse buf penv d _ p (0%nat, 0%nat) Hd Hds Hg' Hat) as [t1 H1]. destruct (C_ok _ _ _ _ _ _ _ _ H1) as [f1 O1].
     atn Hat as A1.
@@ -105,25 +114,25 @@ Proof.
     exists p', (f1 ++ f2), x, s0. split; [eapply ok_star_cons; eassumption|exact A2].
 Qed.
 
-Lemma seg_defs_ko d defs c m p : defs_ok (d :: defs) -> junk_head c = true -> At p (flat_map dshow (d :: defs) ++ c :: m) ->
+Lemma seg_defs_ko d defs rest p : defs_ok (d :: defs) -> Ends rest -> At p (flat_map dshow (d :: defs) ++ rest) ->
   kos [EPlus (EName pr_Definition); EName pr_EndOfFile] p.
 Proof.
   intros Hok Hj Hat. destruct defs as [|d' l'].
   - cbn [flat_map defs_ok app] in *. destruct Hok as (Hd & _). rewrite app_nil_r in Hat.
-    apply kos_head. apply ko_plus. exact (def_ko d c m p Hd Hj Hat).
+    apply kos_head. apply ko_plus. exact (def_ko d rest p Hd Hj Hat).
   - pose proof Hok as Hok0. cbn [defs_ok] in Hok. destruct Hok as (Hd & Hg & Hl).
     change (flat_map dshow (d :: d' :: l')) with (dshow d ++ flat_map dshow (d' :: l')) in Hat. rewrite <- app_assoc in Hat.
-    assert (Hds : defstart (flat_map dshow (d' :: l') ++ c :: m)).
+    assert (Hds : defstart (flat_map dshow (d' :: l') ++ rest)).
     { right. cbn [defs_ok] in Hl. destruct Hl as ((Hid & Hs1 & Hs2 & Hw) & _ & Hl').
-      exists (d_name d'), (d_s1 d'), (d_uni d'), (d_s2 d'), (show (d_body d') ++ flat_map dshow l' ++ c :: m).
+      exists (d_name d'), (d_s1 d'), (d_uni d'), (d_s2 d'), (show (d_body d') ++ flat_map dshow l' ++ rest).
       split; [cbn [flat_map]; unfold dshow; rewrite <- !app_assoc; reflexivity|]. repeat split; try assumption.
       destruct (show_start4 (d_body d') Hw) as [E|(c1 & m1 & E & Hp & _)]; rewrite E; cbn [app];
         [apply defs_stop_junk; assumption|apply pstart_stop; exact Hp]. }
-    assert (Hg' : glue (d_body d) = true -> not_icont_head (flat_map dshow (d' :: l') ++ c :: m)).
+    assert (Hg' : glue (d_body d) = true -> not_icont_head (flat_map dshow (d' :: l') ++ rest)).
     { intros E. rewrite Hg in E; [discriminate|discriminate]. }
     destruct (def_parse buf penv d _ p (0%nat, 0%nat) Hd Hds Hg' Hat) as [t1 H1]. destruct (C_ok _ _ _ _ _ _ _ _ H1) as [f1 O1].
     atn Hat as A1.
-    destruct (defs_junk c m Hj (d' :: l') _ Hl ltac:(discriminate) A1) as (p' & f2 & x & s0 & O2 & A2).
+    destruct (defs_junk rest Hj (d' :: l') _ Hl ltac:(discriminate) A1) as (p' & f2 & x & s0 & O2 & A2).
     eapply kos_tail; [eapply ok_plus; eassumption|]. apply kos_head. korun.
 Qed.
 
@@ -194,17 +203,21 @@ Proof.
   subst ea1 ea2 ea3. cbn [app map kw_package kw_type kw_Peg] in Hall. exact Hall.
 Qed.
 
-(** A well-formed file followed by a character that starts nothing is refused: the rule Grammar fails on it. *)
-Theorem grammar_rejects_trailing f c m : file_ok f -> junk_head c = true -> buf = fshow f ++ c :: m ->
-  ko (EName pr_Grammar) 0.
+(** A well-formed file followed by a text that cannot continue its last rule, on which the look-ahead that ends a rule
+    fails, is refused: the rule Grammar fails on it. *)
+Theorem grammar_rejects_trailing_gen f rest : file_ok f -> Ends rest -> buf = fshow f ++ rest -> ko (EName pr_Grammar) 0.
 Proof.
   intros Hf Hj Ebuf. pose proof Hf as (_ & _ & _ & _ & _ & _ & _ & _ & _ & _ & _ & _ & _ & _ & _ & Hdn & Hdefs).
   destruct (f_defs f) as [|d defs] eqn:Ed; [congruence|].
-  apply (head_then f (flat_map dshow (d :: defs) ++ c :: m) (file_ok_head f Hf)).
+  apply (head_then f (flat_map dshow (d :: defs) ++ rest) (file_ok_head f Hf)).
   - apply defs_stop_junk; assumption.
   - rewrite Ebuf, fshow_head, Ed, <- app_assoc. reflexivity.
-  - intros q Hq. exact (seg_defs_ko d defs c m q Hdefs Hj Hq).
+  - intros q Hq. exact (seg_defs_ko d defs rest q Hdefs Hj Hq).
 Qed.
+(** ... in particular one that begins with a character that starts nothing *)
+Theorem grammar_rejects_trailing f c m : file_ok f -> junk_head c = true -> buf = fshow f ++ c :: m ->
+  ko (EName pr_Grammar) 0.
+Proof. intros Hf Hj Ebuf. exact (grammar_rejects_trailing_gen f (c :: m) Hf (junk_ends c m Hj) Ebuf). Qed.
 
 (** A text with no rule behind  type T Peg { .. }  is refused: whatever follows the head, if it does not start with a
     letter or an underscore there is no rule to read (this includes the text that stops after the head). *)
@@ -214,6 +227,294 @@ Proof.
   intros Hf HJ Hn Ebuf. apply (head_then f J Hf HJ Ebuf). intros q Hq.
   assert (K : ko (EName pr_Identifier) q) by (eapply identifier_ko; [exact Hq|exact Hn]).
   apply kos_head. apply ko_plus. korun.
+Qed.
+
+(** ** a quote that is never closed
+    However far the characters behind an opening quote are read, a sequence that must then find the closing quote
+    fails when there is none in the rest of the text.  Every parsing expression of the rule tree has a result
+    (Proofs/Total.v), so the expressions before the quote either fail or end somewhere further right. *)
+Lemma pegpeg_wf : wf_b pegpeg_d (nul_table pegpeg_d) (rank_table pegpeg_d (nul_table pegpeg_d)) = true.
+Proof. vm_compute. reflexivity. Qed.
+
+Lemma kos_until x post : forall pre p, (p <= length buf)%nat ->
+  forallb (local_ok pegpeg_d (nul_table pegpeg_d)) pre = true ->
+  (forall p', (p <= p')%nat -> ko x p') -> kos (pre ++ x :: post) p.
+Proof.
+  induction pre as [|e pre IH]; intros p Hp Hl Hno; cbn [app].
+  - apply kos_head. apply Hno. lia.
+  - cbn [forallb] in Hl. apply andb_true_iff in Hl as [He Hl].
+    destruct (total pegpeg_d pegpeg_d_ptx buf penv _ _ pegpeg_wf (length buf) (hrank (nul_table pegpeg_d) (rank_table pegpeg_d (nul_table pegpeg_d)) e) (Analyses.esize e) e p Hp ltac:(lia) (le_n _) (le_n _) He)
+      as (n & [[|p1 f1] evs] & Hr).
+    + apply kos_head. exists n, evs. exact Hr.
+    + destruct (ev_ok pegpeg_d pegpeg_d_ptx buf penv n e p _ Hp Hr) as (_ & W & B). cbn [fst] in *.
+      pose proof (wf_forest_le _ _ _ W) as Lp.
+      eapply kos_tail; [exists n, evs; exact Hr|]. apply IH; [exact B|exact Hl|]. intros p' Hp'. apply Hno. lia.
+Qed.
+Lemma ko_char_nowhere c p : (forall p', (p <= p')%nat -> nth_error buf p' <> Some c) -> forall p', (p <= p')%nat -> ko (EChar c) p'.
+Proof. intros Hno p' Hp'. apply ko_char. intros c' E Ec. subst c'. exact (Hno p' Hp' E). Qed.
+Lemma kos_until_char c post pre p : (p <= length buf)%nat ->
+  forallb (local_ok pegpeg_d (nul_table pegpeg_d)) pre = true ->
+  (forall p', (p <= p')%nat -> nth_error buf p' <> Some c) -> kos (pre ++ EChar c :: post) p.
+Proof. intros Hp Hl Hno. apply kos_until; [exact Hp|exact Hl|apply ko_char_nowhere; exact Hno]. Qed.
+
+Lemma At_nth s : forall p k, At p s -> nth_error buf (p + k)%nat = nth_error s k.
+Proof.
+  induction s as [|x s IH]; intros p k H.
+  - pose proof (At_nil _ _ H) as E. apply nth_error_None in E. destruct k; cbn [nth_error]; apply nth_error_None; lia.
+  - destruct k as [|k]; [rewrite Nat.add_0_r; exact (At_head _ _ _ _ H)|].
+    replace (p + S k)%nat with (S p + k)%nat by lia. cbn [nth_error]. apply IH. exact (At_tail _ _ _ _ H).
+Qed.
+Lemma no_char_after q c0 c s : At q (c0 :: s) -> ~ In c s -> forall p', (S q <= p')%nat -> nth_error buf p' <> Some c.
+Proof.
+  intros Hat Hn p' Hp' Hc. pose proof (At_nth _ _ (p' - S q) (At_tail _ _ _ _ Hat)) as E.
+  replace (S q + (p' - S q))%nat with p' in E by lia. rewrite Hc in E. apply Hn. eapply nth_error_In. symmetry. exact E.
+Qed.
+
+(** an opening quote (single or double) with no closing quote behind it *)
+Lemma literal_unclosed_ko q c s : c = 39 \/ c = 34 -> At q (c :: s) -> ~ In c s -> ko (EName pr_Literal) q.
+Proof.
+  intros Hc Hat Hn. pose proof (no_char_after q c c s Hat Hn) as Hno.
+  assert (Hq : (S q <= length buf)%nat).
+  { destruct Hat as [L E]. destruct (Nat.lt_ge_cases q (length buf)) as [H|H]; [lia|]. rewrite skipn_all2 in E by exact H. discriminate. }
+  let b := eval vm_compute in (nth_error pegpeg_d pr_Literal) in
+  lazymatch b with
+  | Some (RBody (EAlt [ESeq [EChar ?c1; ?o1; ?s1; EChar ?c1'; ?sp1]; ESeq [EChar ?c2; ?o2; ?s2; EChar ?c2'; ?sp2]])) =>
+      assert (Eb : nth_error pegpeg_d pr_Literal = Some (RBody (EAlt [ESeq (EChar c1 :: [o1; s1] ++ EChar c1' :: [sp1]); ESeq (EChar c2 :: [o2; s2] ++ EChar c2' :: [sp2])])))
+        by (vm_compute; reflexivity);
+      assert (L1 : forallb (local_ok pegpeg_d (nul_table pegpeg_d)) [o1; s1] = true) by (vm_compute; reflexivity);
+      assert (L2 : forallb (local_ok pegpeg_d (nul_table pegpeg_d)) [o2; s2] = true) by (vm_compute; reflexivity)
+  end.
+  eapply ko_name; [exact Eb|]. apply ko_alt. at1 Hat as A1.
+  destruct Hc as [-> | ->].
+  - apply koa_cons; [|apply koa_cons; [|apply koa_nil]].
+    + apply ko_seq. eapply kos_tail; [apply ok_char; eapply At_head; exact Hat|]. apply kos_until_char; [exact Hq|exact L1|exact Hno].
+    + apply ko_seq. apply kos_head. eapply ko_char_at; [exact Hat|]. intros c' s' E. inv E. lia.
+  - apply koa_cons; [|apply koa_cons; [|apply koa_nil]].
+    + apply ko_seq. apply kos_head. eapply ko_char_at; [exact Hat|]. intros c' s' E. inv E. lia.
+    + apply ko_seq. eapply kos_tail; [apply ok_char; eapply At_head; exact Hat|]. apply kos_until_char; [exact Hq|exact L2|exact Hno].
+Qed.
+
+Lemma unclosed_quote_ends c s : c = 39 \/ c = 34 -> ~ In c s -> Ends (c :: s).
+Proof.
+  intros Hc Hn.
+  assert (Hcc : c <> 32 /\ c <> 9 /\ c <> 10 /\ c <> 13 /\ c <> 35 /\ c <> 47 /\ c <> 8592 /\ c <> 60 /\ c <> 63 /\ c <> 42 /\ c <> 43 /\
+                c <> 38 /\ c <> 33 /\ c <> 40 /\ c <> 91 /\ c <> 46 /\ c <> 123 /\ is_istart c = false /\ is_icont c = false)
+    by (destruct Hc as [-> | ->]; repeat split; try lia; reflexivity).
+  destruct Hcc as (N1&N2&N3&N4&N5&N6&N7&N8&N9&N10&N11&N12&N13&N14&N15&N16&N17&His&Hic).
+  split; [cbn [stop]; repeat split; try assumption; intros E; congruence|].
+  intros q Hat.
+  assert (Hf : fol buf penv q (c :: s)) by (apply fol_char; try assumption; intros E; congruence).
+  pose proof (literal_unclosed_ko q c s Hc Hat Hn) as KL.
+  assert (KI : ko (EName pr_Identifier) q) by (eapply identifier_ko; [exact Hat|intros ? ? E; inv E; exact His]).
+  assert (KP : ko (EName pr_Primary) q) by korun.
+  assert (KS : ko (EName pr_Suffix) q) by korun.
+  split; [exact Hf|]. split; [korun|]. split; [eapply tok_ko; [lookup|exact Hat|intros ? ? E; inv E; assumption]|].
+  split; [intros ? ? E; inv E; assumption|]. split; [intros ? ? E; inv E; exact Hic|]. korun.
+Qed.
+
+(** A well-formed file behind which a literal is opened and never closed is refused. *)
+Theorem grammar_rejects_unclosed_quote f c s : file_ok f -> c = 39 \/ c = 34 -> ~ In c s -> buf = fshow f ++ c :: s ->
+  ko (EName pr_Grammar) 0.
+Proof. intros Hf Hc Hn Ebuf. exact (grammar_rejects_trailing_gen f (c :: s) Hf (unclosed_quote_ends c s Hc Hn) Ebuf). Qed.
+
+(** ** an opening bracket that is never closed: ( without ), < without >, { without }, [ without ] *)
+Lemma ends_of_primary_ko c s :
+  c <> 32 -> c <> 9 -> c <> 10 -> c <> 13 -> c <> 35 -> c <> 47 -> c <> 8592 -> c <> 63 -> c <> 42 -> c <> 43 -> c <> 38 -> c <> 33 ->
+  is_icont c = false -> (c = 60 -> head_ne 45 s) ->
+  (forall q, At q (c :: s) -> ko (EName pr_Primary) q) -> Ends (c :: s).
+Proof.
+  intros N1 N2 N3 N4 N5 N6 N7 N8 N9 N10 N11 N12 Hic H60 HP.
+  assert (His : is_istart c = false) by (unfold is_icont in Hic; destruct (is_istart c); [discriminate|reflexivity]).
+  split; [cbn [stop]; repeat split; try assumption; intros E; congruence|].
+  intros q Hat.
+  assert (Hf : fol buf penv q (c :: s)) by (apply fol_char; try assumption; intros E; congruence).
+  pose proof (HP q Hat) as KP.
+  assert (KI : ko (EName pr_Identifier) q) by (eapply identifier_ko; [exact Hat|intros ? ? E; inv E; exact His]).
+  assert (KS : ko (EName pr_Suffix) q) by korun.
+  split; [exact Hf|]. split; [korun|]. split; [eapply tok_ko; [lookup|exact Hat|intros ? ? E; inv E; assumption]|].
+  split; [intros ? ? E; inv E; assumption|]. split; [intros ? ? E; inv E; exact Hic|]. korun.
+Qed.
+
+Lemma len_at q c s : At q (c :: s) -> (S q <= length buf)%nat.
+Proof. intros [L E]. destruct (Nat.lt_ge_cases q (length buf)) as [H|H]; [lia|]. rewrite skipn_all2 in E by exact H. discriminate. Qed.
+Lemma no_char_from q c0 c s : At q (c0 :: s) -> c0 <> c -> ~ In c s -> forall p', (q <= p')%nat -> nth_error buf p' <> Some c.
+Proof.
+  intros Hat N Hn p' Hp'. destruct (Nat.eq_dec p' q) as [->|Ne].
+  - rewrite (At_head _ _ _ _ Hat). congruence.
+  - apply (no_char_after q c0 c s Hat Hn). lia.
+Qed.
+
+Lemma paren_unclosed_ko q s : At q (40 :: s) -> ~ In 41 s -> ko (EName pr_Primary) q.
+Proof.
+  intros Hat Hn. pose proof (no_char_from q 40 41 s Hat ltac:(lia) Hn) as Hno. pose proof (len_at _ _ _ Hat) as Hq.
+  assert (KC : forall p', (q <= p')%nat -> ko (EName pr_Close) p').
+  { intros p' Hp'. ko_into_rule. apply ko_seq. apply kos_head. apply (ko_char_nowhere 41 q Hno p' Hp'). }
+  assert (K : ko (ESeq [EName pr_Open; EName pr_Expression; EName pr_Close]) q).
+  { apply ko_seq. apply (kos_until (EName pr_Close) [] [EName pr_Open; EName pr_Expression] q); [lia|vm_compute; reflexivity|exact KC]. }
+  assert (KI : ko (EName pr_Identifier) q) by (eapply identifier_ko; [exact Hat|intros ? ? E; inv E; reflexivity]).
+  korun.
+Qed.
+Lemma angle_unclosed_ko q s : At q (60 :: s) -> ~ In 62 s -> ko (EName pr_Primary) q.
+Proof.
+  intros Hat Hn. pose proof (no_char_from q 60 62 s Hat ltac:(lia) Hn) as Hno. pose proof (len_at _ _ _ Hat) as Hq.
+  assert (KC : forall p', (q <= p')%nat -> ko (EName pr_End) p').
+  { intros p' Hp'. ko_into_rule. apply ko_seq. apply kos_head. apply (ko_char_nowhere 62 q Hno p' Hp'). }
+  let b := eval vm_compute in (nth_error pegpeg_d pr_Primary) in
+  lazymatch b with
+  | Some (RBody (EAlt [_; _; _; _; _; _; ESeq [?b1; ?e1; ?n1; ?a1]])) =>
+      assert (K : ko (ESeq [b1; e1; n1; a1]) q)
+        by (apply ko_seq; apply (kos_until n1 [a1] [b1; e1] q); [lia|vm_compute; reflexivity|exact KC])
+  end.
+  assert (KI : ko (EName pr_Identifier) q) by (eapply identifier_ko; [exact Hat|intros ? ? E; inv E; reflexivity]).
+  korun.
+Qed.
+Lemma brace_unclosed_ko q s : At q (123 :: s) -> ~ In 125 s -> ko (EName pr_Primary) q.
+Proof.
+  intros Hat Hn. pose proof (no_char_from q 123 125 s Hat ltac:(lia) Hn) as Hno. pose proof (len_at _ _ _ Hat) as Hq.
+  assert (KA : ko (EName pr_Action) q).
+  { let b := eval vm_compute in (nth_error pegpeg_d pr_Action) in
+    lazymatch b with
+    | Some (RBody (ESeq [?o; ?body; EChar ?cl; ?sp])) =>
+        eapply ko_name; [vm_compute; reflexivity|]; apply ko_seq;
+        apply (kos_until_char cl [sp] [o; body] q); [lia|vm_compute; reflexivity|exact Hno]
+    end. }
+  assert (KI : ko (EName pr_Identifier) q) by (eapply identifier_ko; [exact Hat|intros ? ? E; inv E; reflexivity]).
+  korun.
+Qed.
+Lemma bracket_unclosed_ko q s : At q (91 :: s) -> ~ In 93 s -> ko (EName pr_Primary) q.
+Proof.
+  intros Hat Hn. pose proof (no_char_from q 91 93 s Hat ltac:(lia) Hn) as Hno. pose proof (len_at _ _ _ Hat) as Hq.
+  assert (KK : ko (EName pr_Class) q).
+  { let b := eval vm_compute in (nth_error pegpeg_d pr_Class) in
+    lazymatch b with
+    | Some (RBody (ESeq [EAlt [ESeq [?o1; ?o2; ?m1; ESeq [EChar ?c1; EChar ?c2]]; ESeq [?o3; ?m2; EChar ?c3]]; ?sp])) =>
+        eapply ko_name; [vm_compute; reflexivity|]; apply ko_seq; apply kos_head; apply ko_alt;
+        apply koa_cons; [|apply koa_cons; [|apply koa_nil]];
+        [ apply ko_seq; apply (kos_until (ESeq [EChar c1; EChar c2]) [] [o1; o2; m1] q); [lia|vm_compute; reflexivity|];
+          intros p' Hp'; apply ko_seq; apply kos_head; apply (ko_char_nowhere c1 q Hno p' Hp')
+        | apply ko_seq; apply (kos_until_char c3 [] [o3; m2] q); [lia|vm_compute; reflexivity|exact Hno] ]
+    end. }
+  assert (KI : ko (EName pr_Identifier) q) by (eapply identifier_ko; [exact Hat|intros ? ? E; inv E; reflexivity]).
+  korun.
+Qed.
+
+(** A well-formed file behind which a group, a capture, an action or a class is opened and never closed is refused. *)
+Theorem grammar_rejects_unclosed_bracket f o s : file_ok f ->
+  (o = 40 /\ ~ In 41 s) \/ (o = 60 /\ ~ In 62 s /\ head_ne 45 s) \/ (o = 123 /\ ~ In 125 s) \/ (o = 91 /\ ~ In 93 s) ->
+  buf = fshow f ++ o :: s -> ko (EName pr_Grammar) 0.
+Proof.
+  intros Hf Ho Ebuf. apply (grammar_rejects_trailing_gen f (o :: s) Hf); [|exact Ebuf].
+  destruct Ho as [[-> Hn]|[[-> [Hn H45]]|[[-> Hn]|[-> Hn]]]];
+    apply ends_of_primary_ko; try lia; try reflexivity; try (intros E; discriminate E); try (intros _; exact H45).
+  - intros q Hq. apply paren_unclosed_ko with (s := s); assumption.
+  - intros q Hq. apply angle_unclosed_ko with (s := s); assumption.
+  - intros q Hq. apply brace_unclosed_ko with (s := s); assumption.
+  - intros q Hq. apply bracket_unclosed_ko with (s := s); assumption.
+Qed.
+
+(** ** a prefix operator with nothing to apply to: & or ! followed by blanks and comments only, to the end of the text *)
+Lemma dangling_prefix_ends o l : o = 38 \/ o = 33 -> lay l -> Ends (o :: l).
+Proof.
+  intros Ho Hl.
+  assert (Hoc : o <> 32 /\ o <> 9 /\ o <> 10 /\ o <> 13 /\ o <> 35 /\ o <> 47 /\ o <> 8592 /\ o <> 60 /\ o <> 63 /\ o <> 42 /\ o <> 43 /\
+                o <> 40 /\ o <> 39 /\ o <> 34 /\ o <> 91 /\ o <> 46 /\ o <> 123 /\ is_istart o = false /\ is_icont o = false)
+    by (destruct Ho as [-> | ->]; repeat split; try lia; reflexivity).
+  destruct Hoc as (N1&N2&N3&N4&N5&N6&N7&N8&N9&N10&N11&N12&N13&N14&N15&N16&N17&His&Hic).
+  split; [cbn [stop]; repeat split; try assumption; intros E; congruence|].
+  intros q Hat.
+  assert (Hf : fol buf penv q (o :: l)) by (apply fol_char; try assumption; intros E; congruence).
+  assert (KI : ko (EName pr_Identifier) q) by (eapply identifier_ko; [exact Hat|intros ? ? E; inv E; exact His]).
+  at1 Hat as A1. rewrite <- (app_nil_r l) in A1.
+  pose proof (fun t => spacing_ok buf penv l [] (S q) t Hl I A1) as Hsp. atn A1 as Ae.
+  (* at the end of the text nothing starts *)
+  set (pe := (S q + length l)%nat) in *.
+  assert (KIe : ko (EName pr_Identifier) pe) by (eapply identifier_ko; [exact Ae|intros ? ? E; discriminate E]).
+  assert (KAe : ko (EName pr_Action) pe) by korun.
+  assert (KPe : ko (EName pr_Primary) pe) by korun.
+  assert (KSe : ko (EName pr_Suffix) pe) by korun.
+  assert (KP : ko (EName pr_Primary) q) by korun.
+  assert (KS : ko (EName pr_Suffix) q) by korun.
+  split; [exact Hf|]. split.
+  { destruct Ho as [-> | ->]; korun. }
+  split; [eapply tok_ko; [lookup|exact Hat|intros ? ? E; inv E; assumption]|].
+  split; [intros ? ? E; inv E; assumption|]. split; [intros ? ? E; inv E; exact Hic|]. korun.
+Qed.
+
+(** A well-formed file followed by an & or an ! with nothing behind it but blanks and comments is refused. *)
+Theorem grammar_rejects_dangling_prefix f o l : file_ok f -> o = 38 \/ o = 33 -> lay l -> buf = fshow f ++ o :: l ->
+  ko (EName pr_Grammar) 0.
+Proof. intros Hf Ho Hl Ebuf. exact (grammar_rejects_trailing_gen f (o :: l) Hf (dangling_prefix_ends o l Ho Hl) Ebuf). Qed.
+
+(** the text of a file up to and including the name of the parser type *)
+Definition pre_text (f : cfile) : list rune :=
+  flat_map hshow (f_header f) ++ kw_package ++ f_s_pkg f ++ f_pkg f ++ f_s1 f ++ flat_map impshow (f_imports f) ++
+  kw_type ++ f_s_type f ++ f_peg f ++ f_s2 f.
+
+(** A text that stops inside the parser's state: "Peg {" opened and never closed. *)
+Theorem grammar_rejects_unclosed_state f T : head_ok f -> ~ In 125 T -> buf = pre_text f ++ kw_Peg ++ f_s3 f ++ 123 :: T ->
+  ko (EName pr_Grammar) 0.
+Proof.
+  intros (Hh & Hsp & Hspn & Hpk & Hs1 & Hs1n & Himp & Hst & Hstn & Hpeg & Hs2 & Hs2n & Hs3 & Hbal & Hs4) HT Ebuf.
+  destruct f as [hdr spkg pkg s1 imps stype peg s2 s3 state s4 defs]. unfold pre_text in *.
+  cbn [f_header f_s_pkg f_pkg f_s1 f_imports f_s_type f_peg f_s2 f_s3 f_state f_s4 f_defs] in *.
+  assert (Hat : At 0 (flat_map hshow hdr ++ kw_package ++ spkg ++ pkg ++ s1 ++ flat_map impshow imps ++
+                      kw_type ++ stype ++ peg ++ s2 ++ kw_Peg ++ s3 ++ 123 :: T)).
+  { replace (flat_map hshow hdr ++ kw_package ++ spkg ++ pkg ++ s1 ++ flat_map impshow imps ++
+             kw_type ++ stype ++ peg ++ s2 ++ kw_Peg ++ s3 ++ 123 :: T) with buf; [apply At_start|].
+    rewrite Ebuf. repeat (rewrite <- ?app_assoc, <- ?app_comm_cons; cbn [app]). reflexivity. }
+  let b := eval vm_compute in (nth_error pegpeg_d pr_Grammar) in
+  lazymatch b with
+  | Some (RBody (ESeq [_; _; _; _; ?a1; _; _; _; _; ?a2; _; _; _; ?a3; _; _])) => pose (ea1 := a1); pose (ea2 := a2); pose (ea3 := a3)
+  end.
+  assert (Hea1 : forall q t0, C ea1 q q [(CAddPackage, sub buf t0)] t0 t0) by (intros; subst ea1; cgo).
+  assert (Hea2 : forall q t0, C ea2 q q [(CAddPeg, sub buf t0)] t0 t0) by (intros; subst ea2; cgo).
+  assert (Hea3 : forall q t0, C ea3 q q [(CAddState, sub buf t0)] t0 t0) by (intros; subst ea3; cgo).
+  (* 1: header, package *)
+  assert (Hst1 : stop (flat_map impshow imps ++ kw_type ++ stype ++ peg ++ s2 ++ kw_Peg ++ s3 ++ 123 :: T)).
+  { destruct imps as [|i' l']; cbn [flat_map app]; [unfold kw_type; cbn [app]; apply stop_char; lia|].
+    destruct i'; cbn [impshow]; unfold kw_import; cbn [app]; apply stop_char; lia. }
+  destruct (seg_head buf penv hdr spkg pkg s1 _ ea1 0%nat (0%nat, 0%nat) Hh Hsp Hspn Hpk Hs1 Hs1n Hst1 Hea1 Hat) as [t1 S1].
+  set (q1 := (0 + length (flat_map hshow hdr) + 7 + length spkg + length pkg + length s1)%nat) in *.
+  assert (A1 : At q1 (flat_map impshow imps ++ kw_type ++ stype ++ peg ++ s2 ++ kw_Peg ++ s3 ++ 123 :: T)).
+  { subst q1. atn Hat as X0. unfold kw_package in X0. cbn [app] in X0. at1 X0 as X1. at1 X1 as X2. at1 X2 as X3. at1 X3 as X4. at1 X4 as X5. at1 X5 as X6. at1 X6 as X7.
+    atn X7 as X8. atn X8 as X9. atn X9 as X10.
+    replace (0 + length (flat_map hshow hdr) + 7 + length spkg + length pkg + length s1)%nat
+      with (S (S (S (S (S (S (S (0 + length (flat_map hshow hdr)))))))) + length spkg + length pkg + length s1)%nat by lia. exact X10. }
+  (* 2: imports *)
+  atn A1 as A2.
+  assert (Kimp : ko (EName pr_Import) (q1 + length (flat_map impshow imps))%nat) by (unfold kw_type in A2; cbn [app] in A2; korun).
+  assert (Hst2 : stop (kw_type ++ stype ++ peg ++ s2 ++ kw_Peg ++ s3 ++ 123 :: T)) by (unfold kw_type; cbn [app]; apply stop_char; lia).
+  destruct (imports_star buf penv imps _ q1 t1 Himp Hst2 Kimp A1) as [t2 S2].
+  (* 3: type *)
+  assert (Hst3 : stop (kw_Peg ++ s3 ++ 123 :: T)) by (unfold kw_Peg; cbn [app]; apply stop_char; lia).
+  destruct (seg_type buf penv stype peg s2 _ ea2 _ t2 Hst Hstn Hpeg Hs2 Hs2n Hst3 Hea2 A2) as [t3 S3].
+  set (q3 := (q1 + length (flat_map impshow imps) + 4 + length stype + length peg + length s2)%nat) in *.
+  assert (A3 : At q3 (kw_Peg ++ s3 ++ 123 :: T)).
+  { subst q3. unfold kw_type in A2. cbn [app] in A2. at1 A2 as X1. at1 X1 as X2. at1 X2 as X3. at1 X3 as X4. atn X4 as X5. atn X5 as X6. atn X6 as X7.
+    replace (q1 + length (flat_map impshow imps) + 4 + length stype + length peg + length s2)%nat
+      with (S (S (S (S (q1 + length (flat_map impshow imps))))) + length stype + length peg + length s2)%nat by lia. exact X7. }
+  (* 4: Peg, blanks, and a brace that is never closed *)
+  unfold kw_Peg in A3. cbn [app] in A3. at1 A3 as X1. at1 X1 as X2. at1 X2 as X3.
+  assert (Hst4 : stop (123 :: T)) by (apply stop_char; lia).
+  pose proof (fun t => spacing_ok buf penv s3 _ _ t Hs3 Hst4 X3) as Hsp3. atn X3 as X4.
+  pose proof (no_char_from _ 123 125 T X4 ltac:(lia) HT) as Hno. pose proof (len_at _ _ _ X4) as Hq.
+  assert (KA : ko (EName pr_Action) (S (S (S q3)) + length s3)%nat).
+  { let b := eval vm_compute in (nth_error pegpeg_d pr_Action) in
+    lazymatch b with
+    | Some (RBody (ESeq [?o; ?bd; EChar ?cl; ?sp])) =>
+        eapply ko_name; [vm_compute; reflexivity|]; apply ko_seq;
+        apply (kos_until_char cl [sp] [o; bd]); [lia|vm_compute; reflexivity|exact Hno]
+    end. }
+  assert (K4 : kos [kwe kw_Peg; EName pr_Spacing; EName pr_Action; ea3; EPlus (EName pr_Definition); EName pr_EndOfFile] q3).
+  { unfold kw_Peg. cbn [map]. eapply (kos_tail_C _ _ _ _ _ _ _ (0%nat, 0%nat)); [crun|].
+    eapply (kos_tail_C _ _ _ _ _ _ _ _ _ (Hsp3 (0%nat, 0%nat))). apply kos_head. exact KA. }
+  ko_into_rule. apply ko_seq.
+  assert (Hall : kos (([EName pr_Header; kwe kw_package; EName pr_MustSpacing; EName pr_Identifier; ea1] ++ [EStar (EName pr_Import)] ++
+                  [kwe kw_type; EName pr_MustSpacing; EName pr_Identifier; ea2]) ++
+                  [kwe kw_Peg; EName pr_Spacing; EName pr_Action; ea3; EPlus (EName pr_Definition); EName pr_EndOfFile]) 0).
+  { eapply kos_app_Cs; [|exact K4].
+    eapply Cs_app; [exact S1|]. eapply Cs_app; [eapply Cs_cons; [exact S2|apply Cs_nil]|exact S3]. }
+  subst ea1 ea2 ea3. cbn [app map kw_package kw_type kw_Peg] in Hall. exact Hall.
 Qed.
 
 (** a keyword does not match a text it is not a prefix of *)
